@@ -1,5 +1,5 @@
 """Fact base: extraction (runs the broodfacts driver over /repo's working tree) and loading."""
-import json, os, subprocess, sys, time, shutil, glob, hashlib
+import json, os, subprocess, sys, time, shutil, glob, hashlib, fcntl
 
 VERIF = os.path.dirname(os.path.dirname(os.path.abspath(__file__)))
 CACHE = os.path.join(VERIF, '.cache')
@@ -34,6 +34,11 @@ def extract(config='all', repo=None, extra_cfg=()):
     out = os.path.join(CACHE, 'facts-%s-%d.json' % (config, os.getpid()))
     if os.path.exists(out):
         os.remove(out)
+    # one extraction at a time per target directory: two checks started together on the same tree would otherwise
+    # race on the fingerprint below (the later one finds the crate fresh, cargo skips the driver, and the check
+    # fails closed for lack of a fact file)
+    lock = open(tdir + '.lock', 'w')
+    fcntl.flock(lock, fcntl.LOCK_EX)
     # defeat cargo's freshness cache for the brood crate only
     for fp in glob.glob(os.path.join(tdir, 'debug', '.fingerprint', 'brood-*')):
         shutil.rmtree(fp, ignore_errors=True)
@@ -53,6 +58,8 @@ def extract(config='all', repo=None, extra_cfg=()):
     p = subprocess.run(['cargo', '+nightly', 'check', '--offline', '--lib'] + FEATURE_ARGS[config],
                        cwd=repo, env=env, stdout=subprocess.PIPE, stderr=subprocess.STDOUT, text=True)
     wall = time.time() - t0
+    fcntl.flock(lock, fcntl.LOCK_UN)
+    lock.close()
     if p.returncode != 0:
         raise RuntimeError('fact extraction failed (cargo check exit %d):\n%s' % (p.returncode, p.stdout[-4000:]))
     if not os.path.exists(out) or os.path.getmtime(out) < t0 - 1:
